@@ -7,8 +7,9 @@ a value against it.
 
 * `simpleType` — the `type=` attribute or the `xs:restriction` with its facets, in the order the
   generator writes them (pattern, minLength, maxLength).  The XML-character pattern is skipped;
-  two or more patterns go through the external `greenery` intersection, which is not modelled
-  (`SimpleOut.greenery`; assumed contract `L(a & b) = L(a) ∩ L(b)`).
+  two or more patterns go through the external `greenery` intersection, whose result is not modelled
+  (`SimpleOut.greenery`: ONE `xs:pattern` facet with an unknown text — assumed contract
+  `L(a & b) = L(a) ∩ L(b)` — followed by the same length facets as in the single-pattern case).
 * `listOccurs` — `minOccurs`/`maxOccurs` of the item element of a list.
 * `FacetsValid`, `occursValid` — the validity of a text / an item count as XSD defines the facets
   (`length` of `xs:string` counts characters; `pattern` is `XsdRe.Matches`).
@@ -22,7 +23,7 @@ inductive SimpleOut where
   | plain (ty : String)
   | restricted (ty : String) (pattern : Option Text) (minLength maxLength : Option Nat)
   | error
-  | greenery
+  | greenery (ty : String) (minLength maxLength : Option Nat)
   | unknownPrimitive
   deriving DecidableEq, Repr
 
@@ -42,7 +43,7 @@ def simpleType (lit rng : EscTable) (prims : List (String × String)) (xmlPatter
       (match translate lit rng p with
        | .ok t => .restricted ty (some t) mn mx
        | _ => .error)
-    | _ :: _ :: _ => .greenery
+    | _ :: _ :: _ => .greenery ty mn mx
 
 /-- `minOccurs` / `maxOccurs` of the items of a list (`none`: `unbounded`) -/
 def listOccurs (mn mx : Option Nat) : Nat × Option Nat := (mn.getD 0, mx)
